@@ -11,8 +11,10 @@ PID = "C10"
 THEOREMS = ["PauLie.C10.C10_abs", "PauLie.C10.C10_cache_inv", "PauLie.C10.C10_query", "PauLie.C10.C10_readonly",
             "PauLie.C10.C10_history", "PauLie.C10.C10_history_fresh", "PauLie.C10.C10_lossless", "PauLie.C10.C10_copy",
             "PauLie.C10.C10_sort_needs_perm_invariance",
-            "PauLie.C10.C10_history_on", "PauLie.C10.editList_wf", "PauLie.C10.Kmodel_sort", "PauLie.C10.C10_model", "PauLie.C03.classify_perm"]
-IMPORTS = ["PauLieVerif.Properties.C10", "PauLieVerif.Properties.C10Model"]
+            "PauLie.C10.C10_history_on", "PauLie.C10.editList_wf", "PauLie.C10.Kmodel_sort", "PauLie.C10.C10_model", "PauLie.C03.classify_perm",
+            "PauLie.C10.editList_uniform", "PauLie.C10.getSubgraphs_total", "PauLie.C10.build_total", "PauLie.C10.build_strict_adequate",
+            "PauLie.C10.Kmodel_total", "PauLie.C10.C10_model_total", "PauLie.C10.C10_model_total_init"]
+IMPORTS = ["PauLieVerif.Properties.C10", "PauLieVerif.Properties.C10Model", "PauLieVerif.Properties.C10Total"]
 
 CODE = {"I": (0, 0), "X": (1, 0), "Y": (1, 1), "Z": (0, 1)}
 def bitkey(s):
@@ -79,8 +81,10 @@ def history(rng, maxn, maxk, length, space_ok=True):
         L = n()
         if r < 0.55: return G.rs(rng, L)
         if r < 0.70: return G.rs(rng, max(1, L - rng.randint(1, 2)))
-        if r < 0.80: return G.rs(rng, L + rng.randint(1, 2))
-        if r < 0.90 and len(cur) >= 2:
+        if r < 0.76: return G.rs(rng, L + rng.randint(1, 2))
+        if r < 0.84: return member() + "I" * rng.randint(1, 2)          # longer, but equal to a member once that is padded
+        if r < 0.86: return (member()[:-1] or "X") if member().endswith("I") else member()   # shorter spelling of a member
+        if r < 0.92 and len(cur) >= 2:
             a, b = rng.sample(cur, 2)
             return G.mulstr(a, b)
         return member()
@@ -193,9 +197,12 @@ def main(tier):
     return standard_main(PID, tier, "proof", THEOREMS, IMPORTS, build_streams, rule=RULE,
         assumptions=["refinement theorem is parametric in the classifier; the `sort` edit keeps the cache, which is sound iff the classifier is "
                      "invariant under permutation of its input (hypothesis of the generic C10_history; DISCHARGED for the modelled classifier: C10_model uses C03.getSubgraphs_perm, "
-                     "its only remaining hypothesis is that classify() does not raise on the collections of the history; also checked per history on the implementation)",
+                     "and C10_model_total also discharges 'classify() never raises': every edit keeps the strings synchronised and of one length, "
+                     "on such lists get_subgraphs and build are total (every pipeline exception is caught inside build; the queue construction raises only on unequal "
+                     "lengths; the raising list.remove/list.index of the Python never fire: build_strict_adequate) — C10 holds for the MODEL along all histories with no "
+                     "side condition; the tie of the model to the code is the correspondence stream)",
                      "value semantics: aliasing of element objects between a collection and its copy is decided by the correspondence stream only",
-                     "classifier raising midway (partially filled classification) is modelled; the theorem covers states where classify() does not raise"])
+                     "classifier raising midway (partially filled classification) is modelled; proved unreachable for the modelled classifier (Kmodel_total)"])
 
 def replay(path):
     r = json.load(open(path)); line = r.get("line")
